@@ -117,6 +117,16 @@ impl AsyncWrite for GWriter {
     }
 
     async fn flush(&mut self) -> std::io::Result<()> {
+        // the inner flush may park as well (the adapter has handed its buffer back by then)
+        let park = {
+            let mut e = self.w.env.borrow_mut();
+            e.calls < e.horizon && e.ch.deviate(2) == 1
+        };
+        if park {
+            self.gate.open.set(false);
+            self.gate.parked.set(self.gate.parked.get() + 1);
+            GateFut(self.gate.clone()).await;
+        }
         self.w.flush().await
     }
 
